@@ -668,7 +668,9 @@ class Machine:
         try:
             n = fk.cond_no
             mat = np.zeros((fk.krige_size, fk.krige_size))
-            mat[:n, :n] = fk.model.covariance(fk._get_dists(fk._krige_pos))
+            from scipy.spatial.distance import cdist
+            iso = fk.model.isometrize(fk.cond_pos)
+            mat[:n, :n] = fk.model.covariance(cdist(iso.T, iso.T))
             mat[np.diag_indices(n)] += fk.cond_err
             if fk.unbiased:
                 mat[n, :n] = 1
